@@ -15,6 +15,8 @@ structure Param (σ : Type) where
   schema : σ
   style : B := []      -- "" = absent
   explode : Bool := false
+  description : B := []          -- from the `doc` tag ("" = absent)
+  exampleP : Option DV := none   -- from the `example` tag, parsed by `parseValue`
 
 /-- one response: code, description, schema of the single media type (`none`: no content) -/
 structure Resp (σ : Type) where
@@ -57,6 +59,8 @@ structure ParamSpec where
   dflt : Option DV := none
   style : B := []
   explode : Option Bool := none
+  description : B := []
+  exampleP : Option DV := none
 
 inductive TagSel | query | path | header | cookie
   deriving DecidableEq, Repr
@@ -87,10 +91,11 @@ def derefPtr (env : Env) : Ty → Ty
     | _ => .named id
   | t => t
 
-/-- `inferFormat` (no `format` tag in the corpus) -/
+/-- `inferFormat`: the `format` tag, else what the `validate` tag implies, else the well-known types -/
 def inferFormat (env : Env) (m : FieldMeta) (t : Ty) : B :=
   let v := m.validate
-  if contains v (s "email") then s "email"
+  if m.formatT ≠ [] then m.formatT
+  else if contains v (s "email") then s "email"
   else if contains v (s "url") then s "uri"
   else if contains v (s "uuid") then s "uuid"
   else if contains v (s "ipv4") then s "ipv4"
@@ -121,6 +126,9 @@ def parseValue (env : Env) (x : B) (t : Ty) : Option DV :=
     | some .iface | some .other | none => some (.str x)
     | some _ => (match parseNat x with | some n => some (.num (itoa n)) | none => some (.str x))
 
+/-- `parseEnumValues`: comma-separated, blanks trimmed, empty entries dropped -/
+def parseEnumValues (x : B) : List B := ((splitOn ',' x).map trimSpace).filter (fun v => v ≠ [])
+
 /-- the callback of `extractParamsFromTag` for one flattened field -/
 def paramOfField (env : Env) (sel : TagSel) (mt : FieldMeta × Ty) : Option ParamSpec :=
   let m := mt.1
@@ -133,12 +141,13 @@ def paramOfField (env : Env) (sel : TagSel) (mt : FieldMeta × Ty) : Option Para
       let p0 := ((splitOn ',' tagVal).head?).getD []
       let name0 := trimSpace p0
       let name := if name0 = [] then m.name else name0
+      let enum0 := if m.enumT ≠ [] then parseEnumValues m.enumT else []
       let enum := match afterFirst m.validate (s "oneof=") with
-        | some rest => fields rest
-        | none => []
+        | some rest => enum0 ++ fields rest
+        | none => enum0
       some { name := name, loc := sel.loc, ty := t, required := isParamRequired env m t sel,
              format := inferFormat env m t, enum := enum, dflt := parseValue env m.dflt t,
-             style := m.style,
+             style := m.style, description := m.docT, exampleP := parseValue env m.exampleT t,
              explode := if m.explode = s "true" then some true else if m.explode = s "false" then some false else none }
 
 def extractParamsFromTag (env : Env) (flat : List (FieldMeta × Ty)) (sel : TagSel) : List ParamSpec :=
@@ -327,7 +336,7 @@ def paramOfSpec (env : Env) (ps : ParamSpec) (st : Schemas) : Param IR × Schema
   let s1 := if ps.enum.isEmpty then s0 else s0.modHead fun h => { h with enum := ps.enum }
   let s2 := if ps.format ≠ [] then s1.modHead fun h => { h with format := ps.format } else s1
   ({ name := ps.name, loc := ps.loc, required := ps.required, schema := s2, style := ps.style,
-     explode := ps.explode.getD false }, r.2)
+     explode := ps.explode.getD false, description := ps.description, exampleP := ps.exampleP }, r.2)
 
 /-- the loop over `md.Parameters` with the (in, name) de-duplication of K07g -/
 def mdParams (env : Env) : List ParamSpec → List (B × B) → List B → Schemas →
@@ -594,8 +603,10 @@ def head30r (h : Head) : Attrs :=
 def dfltAttrs (h : Head) : Attrs :=
   match h.dflt with | some d => [(s "default", dvSc d)] | none => []
 
+def descAttrs (h : Head) : Attrs := optAttr "description" (h.description ≠ []) (.str h.description)
+
 /-- `schema30` on the scalar members; keys in byte order -/
-def head30 (h : Head) : Attrs := dfltAttrs h ++ head30r h
+def head30 (h : Head) : Attrs := dfltAttrs h ++ descAttrs h ++ head30r h
 
 /-- `schema31` on the scalar members -/
 def head31r (h : Head) : Attrs :=
@@ -615,7 +626,7 @@ def head31r (h : Head) : Attrs :=
    if t = [] then [] else if h.nullable then [(s "type", .strs [t, s "null"])] else [(s "type", .str t)])
 
 def head31 (h : Head) : Attrs :=
-  optAttr "contentEncoding" (h.contentEncoding ≠ []) (.str h.contentEncoding) ++ dfltAttrs h ++ head31r h
+  optAttr "contentEncoding" (h.contentEncoding ≠ []) (.str h.contentEncoding) ++ dfltAttrs h ++ descAttrs h ++ head31r h
 
 /-- insert a property keeping the keys in byte order (the order `encoding/json` writes map keys in) -/
 def PTree.insertSorted {α} (k : B) (v : Tree α) : PTree α → PTree α
@@ -653,7 +664,8 @@ def projSchema (v : Version) : IR → Schema :=
   | .v31 => Tree.project head31
 
 def Param.map {σ τ} (f : σ → τ) (p : Param σ) : Param τ :=
-  { name := p.name, loc := p.loc, required := p.required, schema := f p.schema, style := p.style, explode := p.explode }
+  { name := p.name, loc := p.loc, required := p.required, schema := f p.schema, style := p.style, explode := p.explode,
+    description := p.description, exampleP := p.exampleP }
 def Resp.map {σ τ} (f : σ → τ) (r : Resp σ) : Resp τ :=
   { code := r.code, description := r.description, schema := r.schema.map f }
 def Operation.map {σ τ} (f : σ → τ) (o : Operation σ) : Operation τ :=
